@@ -76,11 +76,16 @@ ConeNodes   == {"hsv", "okhsv"}        \* (hue, saturation, value)
 BiconeNodes == {"hsl", "okhsl"}        \* (hue, saturation, lightness)
 HwbNodes    == {"hwb", "okhwb"}        \* (hue, whiteness, blackness): the HSV cone in other coordinates
 VolumeNodes == ConeNodes \cup BiconeNodes \cup HwbNodes
-ShapeOf(node) == IF node \in BiconeNodes THEN "bicone" ELSE "cone"
+(* HSLuv (hue, saturation, l in 0..100) is sampled by palette like a bicone.  The statement does not name its solid,
+   so it gets no volume clause; but "between the ends" is judged like the bicones', in CDF space (a monotone
+   change of coordinates, which only decides where rounding slack is measured: near l = 100 the sampler's
+   arithmetic has an absolute error in 1 - CDF, not in l). *)
+FramedNodes == VolumeNodes \cup {"hsluv"}
+ShapeOf(node) == IF node \in BiconeNodes \cup {"hsluv"} THEN "bicone" ELSE "cone"
 
-(* components that reach the caller through a power and its root (cylinder radius: sqrt of a uniform
-   square; HSLuv: the bicone sampler scaled by 100): between the ends up to rounding, see CoordBits *)
-RootedComps == { <<"lch", 2>>, <<"lchuv", 2>>, <<"oklch", 2>>, <<"cam16ucsjmh", 2>>, <<"hsluv", 2>>, <<"hsluv", 3>> }
+(* components that reach the caller through a square and its root (cylinder radius: sqrt of a uniform
+   square): between the ends up to rounding, see CoordBits *)
+RootedComps == { <<"lch", 2>>, <<"lchuv", 2>>, <<"oklch", 2>>, <<"cam16ucsjmh", 2>> }
 
 -----------------------------------------------------------------------------
 (* geometry and the cumulative distribution functions of the volume measure (Fx numbers) *)
@@ -117,6 +122,7 @@ SatCdf(s) == FxSqrZ(s)
    need no division: s = 1 - w / v = (v - w) / v).  x: the components as Fx numbers. *)
 Img(node, x) == IF node \in HwbNodes
                 THEN LET v == FxSub(FxOne, x[3]) IN [v |-> v, cn |-> FxSub(v, x[2]), cd |-> v]
+                ELSE IF node = "hsluv" THEN [v |-> FxDivInt(x[3], 100), cn |-> FxDivInt(x[2], 100), cd |-> FxOne]
                 ELSE [v |-> x[3], cn |-> x[2], cd |-> FxOne]
 (* the whole solid as a pair of ends *)
 Bottom == [v |-> FxZero, cn |-> FxZero, cd |-> FxOne]
@@ -154,8 +160,8 @@ D360 == DyFromInt(360)
 HueDomain(lo, hi) == /\ DyLe(lo, hi) /\ DyLe(DySub(hi, lo), D360)
                      /\ DyLe(DyAbs(lo), DyFromInt(1024)) /\ DyLe(DyAbs(hi), DyFromInt(1024))
 
-(* TOLERANCE CoordBits: components of RootedComps come back through sqrt(x * x) or 100 * cbrt(.. (x / 100)^3 ..):
-   a few ulps relative to the coordinate.  2^-(Prec-6). *)
+(* TOLERANCE CoordBits: components of RootedComps come back through sqrt(low^2 + r (high^2 - low^2)): a few ulps
+   relative to the coordinate.  2^-(Prec-6). *)
 CoordBits(t) == Prec(t) - 6
 
 (* TOLERANCE BoundBits: a documented decimal bound B (0.95047, 127, ...) exists in the component type as the
@@ -234,12 +240,12 @@ RootedBetween(t, x, lo, hi) ==
 
 FxSeq(c) == [i \in DOMAIN c |-> FxOfDy(c[i])]
 
-(* every non-hue component between the ends; c, lo, hi: Dy sequences of equal length; f: the frame (cone-like
-   types only) *)
+(* every non-hue component between the ends; c, lo, hi: Dy sequences of equal length; f: the frame (FramedNodes
+   only) *)
 UniformBetween(node, t, al, c, lo, hi, f) ==
   /\ Len(c) = NComp(node) + al /\ Len(lo) = Len(c) /\ Len(hi) = Len(c)
   /\ (al = 1 => DirectBetween(c[Len(c)], lo[Len(c)], hi[Len(c)]))
-  /\ IF node \in VolumeNodes
+  /\ IF node \in FramedNodes
      THEN HeightBetween(t, f) /\ SatBetween(t, f)
      ELSE \A i \in 1..NComp(node) :
             \/ i = HueIdx(node)
